@@ -159,7 +159,7 @@ def gen_long_text(rng, tier="thorough"):
 
 
 def gen_split(rng, tier):
-    if rng.random() < (0.015 if tier == "thorough" else 0.006):
+    if rng.random() < 0.006:
         return {"k": "split", "runs": gen_long_text(rng, tier)}
     return {"k": "split", "runs": [[gen_text(rng), 1]]}
 
@@ -169,7 +169,7 @@ NEWLINES = [[10], [10], [13, 10], [], [124], [0x2028]]
 
 
 def gen_indent(rng, tier):
-    if rng.random() < (0.015 if tier == "thorough" else 0.006):
+    if rng.random() < 0.006:
         return {"k": "indent", "runs": gen_long_text(rng, tier), "margin": rng.choice(MARGINS), "newline": rng.choice(NEWLINES)}
     return {"k": "indent", "runs": [[gen_text(rng), 1]], "margin": rng.choice(MARGINS), "newline": rng.choice(NEWLINES)}
 
@@ -347,7 +347,7 @@ def gen_rev(rng, tier):
         content = gen_content(rng, n, mode, lone_cr, invalid, utf8)
         runs = [[content, 1]]
         bs = pick_blocksizes(rng, len(content))
-    elif r < (0.965 if tier == "thorough" else 0.956):
+    elif r < 0.956:
         # size class: 64-128 KB with a line break / multi-byte character across the offset 65536 or 131072 from the
         # END (where the backward reader's blocks of 4096 / 65536 have their edges)
         b = rng.choice([65536, 65536, 131072])
@@ -466,7 +466,9 @@ def gen_jsonl(rng, tier):
         if feats:
             i = rng.choice(feats)
             after = len(content) - (i + 1)          # bytes after the first byte of the feature
-            k = rng.choice([1, 1, 1, 2, 2, 3] + ([8, 8, 16] if tier == "thorough" else []))
+            k = rng.choice([1, 1, 1, 2, 2, 3])
+            if tier == "thorough" and rng.random() < 0.06:
+                k = rng.choice([8, 8, 8, 16])         # 32 / 64 KB: about 70 files per thorough run
             pad = 4096 * k - after
             if pad < 0:
                 pad %= 4096
